@@ -683,13 +683,29 @@ impl<'a> Gen<'a> {
         // point and four leaf functions of the user module carry every combination of `pub` and `extern`
         let combos = ["", "pub ", "extern ", "pub extern "];
         let rot = r.below(4);
+        // Names: in every second program one or two leaf functions carry the name of a C library function that the
+        // code generator declares on its own for the builtins used below (`print!` -> write, `format!` -> snprintf,
+        // `abort!`) or that a linked C library defines; a Penne function of that name is still the function the
+        // source defines.  (A generator of its own, so that the other draws of a seed stay what they were.)
+        let mut rn = Rng::new(self.seed, 0x7100_0000 + i as u64);
+        let mut leaf: Vec<String> = (0..4).map(|k| format!("leaf{k}")).collect();
+        if rn.chance(50) {
+            let libc = ["write", "abort", "snprintf", "memcpy", "exit", "puts"];
+            let first = rn.below(libc.len());
+            leaf[rn.below(4)] = libc[first].to_string();
+            if rn.chance(40) {
+                let second = (first + 1 + rn.below(libc.len() - 1)) % libc.len();
+                let slot = (0..4).find(|&k| leaf[k].starts_with("leaf")).unwrap();
+                leaf[slot] = libc[second].to_string();
+            }
+        }
         for k in 0..4 {
-            user.push_str(&format!("{}fn leaf{k}(x: i32) -> i32\n{{\n\treturn: x + {k}\n}}\n\n", combos[(k + rot) % 4]));
+            user.push_str(&format!("{}fn {}(x: i32) -> i32\n{{\n\treturn: x + {k}\n}}\n\n", combos[(k + rot) % 4], leaf[k]));
         }
         // constants live in a namespace of their own: two of them carry the names of two of the leaf functions
         // (the functions must still be defined under their own names)
         let shared = r.below(4);
-        user.push_str(&format!("const leaf{shared}: i32 = 10;\nconst leaf{}: i32 = 20;\n\n", (shared + 1) % 4));
+        user.push_str(&format!("const {}: i32 = 10;\nconst {}: i32 = 20;\n\n", leaf[shared], leaf[(shared + 1) % 4]));
         let entry_flags = if entry == "main" { combos[r.below(4)] } else { combos[1 + 2 * r.below(2)] };
         user.push_str(&format!("{entry_flags}fn {entry}() -> i32\n{{\n{locals}"));
         user.push_str(&format!("\tvar p = {};\n", lit(&mut r, "Packet", "m", &smembers, false)));
@@ -716,7 +732,7 @@ impl<'a> Gen<'a> {
         user.push_str(&format!("\to.word = {};\n", lit(&mut r, "Wd", "w", wmembers, false)));
         user.push_str("\tw = f;\n\to.word = w;\n");
         user.push_str("\tvar t = tag_of(o) as i32 + tag_of(c) as i32;\n");
-        user.push_str(&format!("\tt = leaf0(t) + leaf1(1) + leaf2(2) - leaf3(3) - 3 + leaf{shared} - 10;\n"));
+        user.push_str(&format!("\tt = {}(t) + {}(1) + {}(2) - {}(3) - 3 + {} - 10;\n", leaf[0], leaf[1], leaf[2], leaf[3], leaf[shared]));
         user.push_str("\tw = DEFAULT_WORD;\n");
         // a formatted text kept in a variable and printed later (an array view coerced into an array view)
         user.push_str("\tvar text = format!(\"t=\", t, \";\");\n\tprint!(text, \"\\n\");\n");
@@ -730,7 +746,11 @@ impl<'a> Gen<'a> {
             vec![json!({"name": "structs.pn", "src": format!("{lib}{user}")})]
         };
         json!({"id": format!("struct{i}"), "kind": "struct", "wasm": wasm,
-               "origin": format!("{wkw}/{n_members} members/{}", if two_modules { "imported" } else { "single" }), "mods": mods})
+               "origin": format!("{wkw}/{n_members} members/{}{}", if two_modules { "imported" } else { "single" },
+                                 // the word and the structure have the same member types in the same order (the input class of
+                                 // the open finding C02-imported-struct-and-word-same-layout-abort)
+                                 if wmembers.len() == smembers.len() && wmembers.iter().zip(smembers.iter()).all(|(a, b)| a == b) { "/same-layout" } else { "" }),
+               "mods": mods})
     }
 
     /// special inputs for locations: CRLF, multi-byte characters before the error, error at end of file
